@@ -1,1 +1,436 @@
-//! RPKI object factory (filled in by later modules).
+//! RPKI object factory.
+//!
+//! Turns an abstract description of an RPKI world (TALs, CAs, objects, one
+//! optional fault per object) into real DER objects signed with real RSA keys
+//! via the `rpki` crate's builders.  Keys are generated once and cached on
+//! disk (`/verif/work/keys`), objects are cached in memory by their full
+//! parameter string, so generating thousands of slightly different trees is
+//! cheap.
+//!
+//! Times are given in whole hours relative to the factory's `now`, always
+//! with at least one hour of slack so that a slow machine cannot flip a
+//! verdict.
+
+use std::collections::{BTreeMap, HashMap};
+use std::path::{Path, PathBuf};
+use std::str::FromStr;
+use std::sync::Mutex;
+use bytes::Bytes;
+use serde::{Deserialize, Serialize};
+use rpki::crypto::keys::{PublicKey, PublicKeyFormat};
+use rpki::crypto::signer::{KeyError, Signer, SigningError};
+use rpki::crypto::softsigner::{KeyId as SoftKeyId, OpenSslSigner};
+use rpki::crypto::{DigestAlgorithm, Signature, SignatureAlgorithm};
+use rpki::repository::aspa::AspaBuilder;
+use rpki::repository::cert::{ExtendedKeyUsage, KeyUsage, Overclaim, TbsCert};
+use rpki::repository::crl::{CrlEntry, TbsCertList};
+use rpki::repository::manifest::{FileAndHash, ManifestContent};
+use rpki::repository::resources::{AsBlock, AsBlocks, AsResources, IpBlock, IpBlocks, IpResources, Prefix as ResPrefix};
+use rpki::repository::roa::RoaBuilder;
+use rpki::repository::sigobj::SignedObjectBuilder;
+use rpki::repository::x509::{Name, Serial, Time, Validity};
+use rpki::resources::Asn;
+use rpki::uri;
+use bcder::encode::Values;
+use bcder::Mode;
+
+pub mod world;
+pub use world::*;
+
+//------------ Key pool and signer --------------------------------------------
+
+/// Key identifier of the pool signer.
+#[derive(Clone, Copy, Debug, PartialEq, Eq)]
+pub enum Kid {
+    /// Key number `n` of the pool.
+    Plain(usize),
+    /// Claims to be key `claim` (name, key identifier) but signs with `with`:
+    /// produces objects whose signature does not verify.
+    Forged { claim: usize, with: usize },
+}
+
+/// A signer over a fixed pool of RSA keys whose one-off keys are pool keys too.
+pub struct PoolSigner {
+    inner: OpenSslSigner,
+    keys: Vec<SoftKeyId>,
+    one_off: Mutex<usize>,
+    one_off_base: usize,
+}
+
+pub const POOL_SIZE: usize = 20;
+const ONE_OFF_KEYS: usize = 4;
+
+fn key_dir() -> PathBuf {
+    let dir = std::env::var("VERIF_KEY_DIR").map(PathBuf::from).unwrap_or_else(|_| {
+        PathBuf::from(concat!(env!("CARGO_MANIFEST_DIR"), "/../work/keys"))
+    });
+    std::fs::create_dir_all(&dir).expect("key dir");
+    dir
+}
+
+impl PoolSigner {
+    pub fn new() -> Self {
+        let inner = OpenSslSigner::new();
+        let dir = key_dir();
+        let mut keys = Vec::new();
+        for i in 0..(POOL_SIZE + ONE_OFF_KEYS) {
+            let path = dir.join(format!("k{i}.pem"));
+            let pem = match std::fs::read(&path) {
+                Ok(pem) => pem,
+                Err(_) => {
+                    let rsa = openssl::rsa::Rsa::generate(2048).expect("rsa");
+                    let pem = rsa.private_key_to_pem().expect("pem");
+                    // write atomically: several harness processes may start at once
+                    let tmp = dir.join(format!("k{i}.pem.{}", std::process::id()));
+                    std::fs::write(&tmp, &pem).expect("write key");
+                    let _ = std::fs::rename(&tmp, &path);
+                    std::fs::read(&path).expect("reread key")
+                }
+            };
+            keys.push(inner.key_from_pem(&pem).expect("load key"));
+        }
+        PoolSigner { inner, keys, one_off: Mutex::new(0), one_off_base: POOL_SIZE }
+    }
+
+    pub fn pubkey(&self, n: usize) -> PublicKey {
+        self.inner.get_key_info(&self.keys[n]).expect("key info")
+    }
+}
+
+impl Signer for PoolSigner {
+    type KeyId = Kid;
+    type Error = std::io::Error;
+
+    fn create_key(&self, _algorithm: PublicKeyFormat) -> Result<Kid, Self::Error> {
+        Err(std::io::Error::other("fixed pool"))
+    }
+
+    fn get_key_info(&self, key: &Kid) -> Result<PublicKey, KeyError<Self::Error>> {
+        let n = match *key { Kid::Plain(n) => n, Kid::Forged { claim, .. } => claim };
+        self.inner.get_key_info(&self.keys[n])
+    }
+
+    fn destroy_key(&self, _key: &Kid) -> Result<(), KeyError<Self::Error>> { Ok(()) }
+
+    fn sign<Alg: SignatureAlgorithm, D: AsRef<[u8]> + ?Sized>(
+        &self, key: &Kid, algorithm: Alg, data: &D
+    ) -> Result<Signature<Alg>, SigningError<Self::Error>> {
+        let n = match *key { Kid::Plain(n) => n, Kid::Forged { with, .. } => with };
+        self.inner.sign(&self.keys[n], algorithm, data)
+    }
+
+    fn sign_one_off<Alg: SignatureAlgorithm, D: AsRef<[u8]> + ?Sized>(
+        &self, algorithm: Alg, data: &D
+    ) -> Result<(Signature<Alg>, PublicKey), Self::Error> {
+        let n = {
+            let mut g = self.one_off.lock().unwrap();
+            *g = (*g + 1) % ONE_OFF_KEYS;
+            self.one_off_base + *g
+        };
+        let sig = self.inner.sign(&self.keys[n], algorithm, data)
+            .map_err(|e| std::io::Error::other(format!("{e}")))?;
+        Ok((sig, self.inner.get_key_info(&self.keys[n]).map_err(|e| std::io::Error::other(format!("{e}")))?))
+    }
+
+    fn rand(&self, target: &mut [u8]) -> Result<(), Self::Error> {
+        self.inner.rand(target)
+    }
+}
+
+/// Two fixed ECDSA P-256 public keys (SubjectPublicKeyInfo, DER) for router
+/// certificates; the private halves are never needed.
+pub const EC_SPKI: [&str; 2] = [
+    "3059301306072a8648ce3d020106082a8648ce3d030107034200040b09525d6676636138df258c846047e574e8f7c0504d8322fc99d734518090e25316bc6af5c4151000b99b0554b89c3d4d18c2ca619ef306cac607af815baed6",
+    "3059301306072a8648ce3d020106082a8648ce3d03010703420004e9b55c95af0bbdf99384292037cc6f490ee2875f353c8fc5a313cd6c43c169d5ee67c90b5094fd9eab1252c12d6dfcc32a55edeaec7322bf8915c4525f891974",
+];
+
+pub fn hex(s: &str) -> Vec<u8> {
+    (0..s.len()).step_by(2).map(|i| u8::from_str_radix(&s[i..i + 2], 16).unwrap()).collect()
+}
+
+pub fn ec_key(n: usize) -> PublicKey {
+    use bcder::decode::IntoSource;
+    let der = hex(EC_SPKI[n % EC_SPKI.len()]);
+    PublicKey::decode(der.as_slice().into_source()).expect("ec spki")
+}
+
+//------------ Factory --------------------------------------------------------
+
+pub struct Factory {
+    pub signer: PoolSigner,
+    pub now: Time,
+    cache: Mutex<HashMap<String, Bytes>>,
+}
+
+pub fn rsync(s: &str) -> uri::Rsync {
+    uri::Rsync::from_str(s).unwrap_or_else(|e| panic!("bad rsync uri {s}: {e}"))
+}
+
+fn v4_blocks(prefixes: &[String]) -> IpBlocks {
+    IpBlocks::from_iter(prefixes.iter().filter(|p| !p.contains(':')).map(|p| {
+        IpBlock::from(ResPrefix::from_v4_str(p).unwrap_or_else(|_| panic!("bad v4 prefix {p}")))
+    }))
+}
+
+fn v6_blocks(prefixes: &[String]) -> IpBlocks {
+    IpBlocks::from_iter(prefixes.iter().filter(|p| p.contains(':')).map(|p| {
+        IpBlock::from(ResPrefix::from_v6_str(p).unwrap_or_else(|_| panic!("bad v6 prefix {p}")))
+    }))
+}
+
+fn as_blocks(ranges: &[(u32, u32)]) -> AsBlocks {
+    AsBlocks::from_iter(ranges.iter().map(|(a, b)| {
+        AsBlock::from((Asn::from_u32(*a), Asn::from_u32(*b)))
+    }))
+}
+
+impl Factory {
+    pub fn new() -> Self {
+        // Whole seconds: the encoded times have second resolution anyway.
+        let now = Time::new(chrono::DateTime::from_timestamp(chrono::Utc::now().timestamp(), 0).unwrap());
+        Factory { signer: PoolSigner::new(), now, cache: Mutex::new(HashMap::new()) }
+    }
+
+    pub fn at(&self, hours: i64) -> Time {
+        self.now + chrono::TimeDelta::try_hours(hours).unwrap()
+    }
+
+    pub fn at_secs(&self, secs: i64) -> Time {
+        self.now + chrono::TimeDelta::try_seconds(secs).unwrap()
+    }
+
+    fn validity(&self, v: (i64, i64)) -> Validity {
+        Validity::new(self.at(v.0), self.at(v.1))
+    }
+
+    fn cached(&self, key: String, make: impl FnOnce() -> Bytes) -> Bytes {
+        if let Some(b) = self.cache.lock().unwrap().get(&key) {
+            return b.clone()
+        }
+        let b = make();
+        self.cache.lock().unwrap().insert(key, b.clone());
+        b
+    }
+
+    fn issuer_kid(&self, issuer_key: usize, forged: bool) -> Kid {
+        if forged {
+            Kid::Forged { claim: issuer_key, with: (issuer_key + 7) % POOL_SIZE }
+        } else {
+            Kid::Plain(issuer_key)
+        }
+    }
+
+    /// A CA certificate (self-signed if `issuer` is None).
+    pub fn ca_cert(&self, c: &CaCertSpec) -> Bytes {
+        let key = format!("ca|{:?}", c);
+        self.cached(key, || {
+            let pubkey = self.signer.pubkey(c.key);
+            let issuer_key = c.issuer_key.unwrap_or(c.key);
+            let issuer_pub = self.signer.pubkey(issuer_key);
+            let mut cert = TbsCert::new(
+                Serial::from(c.serial), issuer_pub.to_subject_name(), self.validity(c.validity),
+                None, pubkey, KeyUsage::Ca,
+                if c.overclaim_trim { Overclaim::Trim } else { Overclaim::Refuse },
+            );
+            cert.set_basic_ca(Some(true));
+            cert.set_ca_repository(Some(rsync(&c.repo)));
+            cert.set_rpki_manifest(Some(rsync(&c.manifest)));
+            if let Some(n) = c.notify.as_ref() {
+                cert.set_rpki_notify(Some(uri::Https::from_str(n).expect("https uri")));
+            }
+            if c.issuer_key.is_some() {
+                cert.set_authority_key_identifier(Some(issuer_pub.key_identifier()));
+                cert.set_crl_uri(Some(rsync(c.crl_uri.as_deref().expect("crl uri"))));
+                cert.set_ca_issuer(Some(rsync(c.ca_issuer.as_deref().expect("ca issuer"))));
+            }
+            if c.inherit {
+                cert.set_v4_resources_inherit();
+                cert.set_v6_resources_inherit();
+                cert.set_as_resources_inherit();
+            } else {
+                let v4 = v4_blocks(&c.prefixes);
+                let v6 = v6_blocks(&c.prefixes);
+                if !v4.is_empty() { cert.set_v4_resources(IpResources::blocks(v4)); }
+                if !v6.is_empty() { cert.set_v6_resources(IpResources::blocks(v6)); }
+                if !c.asns.is_empty() { cert.set_as_resources(AsResources::blocks(as_blocks(&c.asns))); }
+            }
+            let kid = self.issuer_kid(issuer_key, c.forged);
+            cert.into_cert(&self.signer, &kid).expect("sign ca cert").to_captured().into_bytes()
+        })
+    }
+
+    fn sigobj(&self, o: &EeSpec) -> SignedObjectBuilder {
+        SignedObjectBuilder::new(
+            Serial::from(o.serial), self.validity(o.validity),
+            rsync(&o.crl_uri), rsync(&o.ca_issuer), rsync(&o.uri),
+        )
+    }
+
+    pub fn roa(&self, issuer_key: usize, ee: &EeSpec, asn: u32, prefixes: &[(String, u8)]) -> Bytes {
+        let key = format!("roa|{issuer_key}|{:?}|{asn}|{:?}", ee, prefixes);
+        self.cached(key, || {
+            let mut b = RoaBuilder::new(Asn::from_u32(asn));
+            for (p, max) in prefixes {
+                let (addr, len) = p.split_once('/').expect("prefix");
+                let len: u8 = len.parse().unwrap();
+                let max = if *max == len { None } else { Some(*max) };
+                let addr: std::net::IpAddr = addr.parse().expect("addr");
+                b.push_addr(addr, len, max);
+            }
+            let kid = self.issuer_kid(issuer_key, ee.forged);
+            let roa = b.finalize(self.sigobj(ee), &self.signer, &kid).expect("roa");
+            let res = roa.encode_ref().to_captured(Mode::Der).into_bytes();
+            res
+        })
+    }
+
+    pub fn aspa(&self, issuer_key: usize, ee: &EeSpec, customer: u32, providers: &[u32]) -> Bytes {
+        let key = format!("aspa|{issuer_key}|{:?}|{customer}|{:?}", ee, providers);
+        self.cached(key, || {
+            let mut b = AspaBuilder::empty(Asn::from_u32(customer));
+            for p in providers {
+                let _ = b.add_provider(Asn::from_u32(*p));
+            }
+            let kid = self.issuer_kid(issuer_key, ee.forged);
+            let aspa = b.finalize(self.sigobj(ee), &self.signer, &kid).expect("aspa");
+            let res = aspa.encode_ref().to_captured(Mode::Der).into_bytes();
+            res
+        })
+    }
+
+    pub fn router_cert(&self, issuer_key: usize, ee: &EeSpec, asns: &[u32], ec: usize) -> Bytes {
+        let key = format!("rtr|{issuer_key}|{:?}|{:?}|{ec}", ee, asns);
+        self.cached(key, || {
+            let issuer_pub = self.signer.pubkey(issuer_key);
+            let pubkey = ec_key(ec);
+            let mut cert = TbsCert::new(
+                Serial::from(ee.serial), issuer_pub.to_subject_name(), self.validity(ee.validity),
+                Some(router_name(asns.first().copied().unwrap_or(0), ee.serial)),
+                pubkey, KeyUsage::Ee, Overclaim::Refuse,
+            );
+            cert.set_authority_key_identifier(Some(issuer_pub.key_identifier()));
+            cert.set_crl_uri(Some(rsync(&ee.crl_uri)));
+            cert.set_ca_issuer(Some(rsync(&ee.ca_issuer)));
+            cert.set_extended_key_usage(Some(ExtendedKeyUsage::create_router()));
+            let ranges: Vec<(u32, u32)> = asns.iter().map(|a| (*a, *a)).collect();
+            cert.set_as_resources(AsResources::blocks(as_blocks(&ranges)));
+            let kid = self.issuer_kid(issuer_key, ee.forged);
+            cert.into_cert(&self.signer, &kid).expect("router cert").to_captured().into_bytes()
+        })
+    }
+
+    pub fn crl(&self, c: &CrlSpec) -> Bytes {
+        let key = format!("crl|{:?}", c);
+        self.cached(key, || {
+            let pubkey = self.signer.pubkey(c.key);
+            let crl = TbsCertList::new(
+                Default::default(), pubkey.to_subject_name(),
+                self.at(c.this_update), self.at(c.next_update),
+                c.revoked.iter().map(|s| CrlEntry::new(Serial::from(*s), self.at(-1))).collect::<Vec<_>>(),
+                pubkey.key_identifier(), Serial::from(c.number),
+            );
+            let kid = self.issuer_kid(c.key, c.forged);
+            crl.into_crl(&self.signer, &kid).expect("crl").to_captured().into_bytes()
+        })
+    }
+
+    pub fn manifest(&self, issuer_key: usize, ee: &EeSpec, m: &MftSpec, files: &[(String, Bytes)]) -> Bytes {
+        let digest = DigestAlgorithm::default();
+        let entries: Vec<(String, Bytes)> = files.iter().map(|(n, b)| {
+            (n.clone(), Bytes::copy_from_slice(digest.digest(b).as_ref()))
+        }).collect();
+        let key = format!("mft|{issuer_key}|{:?}|{:?}|{:?}", ee, m,
+            entries.iter().map(|(n, h)| format!("{n}:{}", hexs(h))).collect::<Vec<_>>());
+        self.cached(key, || {
+            let fh: Vec<FileAndHash<Bytes, Bytes>> = entries.iter().map(|(n, h)| {
+                FileAndHash::new(Bytes::copy_from_slice(n.as_bytes()), h.clone())
+            }).collect();
+            let content = ManifestContent::new(
+                Serial::from(m.number),
+                if m.this_update_secs != 0 { self.at_secs(m.this_update_secs) } else { self.at(m.this_update) },
+                if m.next_update_secs != 0 { self.at_secs(m.next_update_secs) } else { self.at(m.next_update) },
+                digest, fh.iter(),
+            );
+            let kid = self.issuer_kid(issuer_key, ee.forged);
+            let mut so = self.sigobj(ee);
+            so.set_v4_resources_inherit();
+            so.set_v6_resources_inherit();
+            so.set_as_resources_inherit();
+            if m.ee_not_after_secs != 0 {
+                so.set_validity(Validity::new(self.at(ee.validity.0), self.at_secs(m.ee_not_after_secs)));
+            }
+            let mft = content.into_manifest(so, &self.signer, &kid).expect("manifest");
+            let res = mft.encode_ref().to_captured(Mode::Der).into_bytes();
+            res
+        })
+    }
+
+    pub fn tal_text(&self, uris: &[String], key: usize) -> String {
+        let mut s = String::new();
+        for u in uris {
+            s.push_str(u);
+            s.push('\n');
+        }
+        s.push('\n');
+        s.push_str(&rpki::util::base64::Xml.encode(self.signer.pubkey(key).to_info_bytes().as_ref()));
+        s.push('\n');
+        s
+    }
+}
+
+pub fn hexs(b: &[u8]) -> String {
+    b.iter().map(|x| format!("{x:02x}")).collect()
+}
+
+fn router_name(asn: u32, serial: u64) -> Name {
+    // RFC 8209: CN = ROUTER-<asn hex>, serialNumber = <router id hex>
+    use bcder::encode::PrimitiveContent;
+    use bcder::{encode, Oid, Tag};
+    let cn = format!("ROUTER-{:08X}", asn);
+    let sn = format!("{:08X}", serial as u32);
+    let at_cn = Oid(&[85u8, 4, 3][..]);
+    let at_sn = Oid(&[85u8, 4, 5][..]);
+    let values = encode::sequence((
+        encode::set(encode::sequence((at_cn.encode(), cn.as_bytes().encode_as(Tag::PRINTABLE_STRING)))),
+        encode::set(encode::sequence((at_sn.encode(), sn.as_bytes().encode_as(Tag::PRINTABLE_STRING)))),
+    ));
+    let captured = bcder::Captured::from_values(Mode::Der, values);
+    use bcder::decode::IntoSource;
+    bcder::Mode::Der.decode(captured.as_slice().into_source(), Name::take_from).expect("router name")
+}
+
+//------------ Publication ----------------------------------------------------
+
+/// Everything that is published for a world.
+#[derive(Clone, Debug, Default)]
+pub struct Published {
+    /// rsync URI -> content
+    pub files: BTreeMap<String, Bytes>,
+    /// TAL file name (without .tal) -> text
+    pub tals: BTreeMap<String, String>,
+}
+
+impl Published {
+    /// Writes the files below `root/<host>/<module>/...`, replacing what is there.
+    pub fn write_rsync_tree(&self, root: &Path) {
+        let _ = std::fs::remove_dir_all(root);
+        std::fs::create_dir_all(root).unwrap();
+        for (uri, content) in &self.files {
+            let rel = uri.strip_prefix("rsync://").expect("rsync uri");
+            let path = root.join(rel);
+            std::fs::create_dir_all(path.parent().unwrap()).unwrap();
+            std::fs::write(&path, content).unwrap();
+        }
+    }
+
+    pub fn write_tals(&self, dir: &Path) {
+        let _ = std::fs::remove_dir_all(dir);
+        std::fs::create_dir_all(dir).unwrap();
+        for (name, text) in &self.tals {
+            std::fs::write(dir.join(format!("{name}.tal")), text).unwrap();
+        }
+    }
+}
+
+#[derive(Clone, Debug, Serialize, Deserialize)]
+pub struct Nothing;
